@@ -15,7 +15,7 @@ Quick == Tier = "quick"
 BinList == <<",", "||", "&&", "|", "^", "&", "==", "!=", "===", "!==", "<", ">", "<=", ">=", "in", "instanceof",
              "<<", ">>", ">>>", "+", "-", "*", "/", "%", "**">>
 UnList  == <<"-", "+", "!", "~", "typeof", "void", "delete">>
-AsgList == <<"=", "+=", "-=", "*=", "/=", "%=", "&=", "|=", "^=", "<<=", ">>=", ">>>=">>
+AsgList == <<"=", "+=", "-=", "*=", "/=", "%=", "**=", "&=", "|=", "^=", "<<=", ">>=", ">>>=">>
 Ctors == [ci \in 1..Len(BinList) |-> [t |-> "bin", op |-> BinList[ci], ar |-> 2]]
       \o [ci \in 1..Len(UnList)  |-> [t |-> "un",  op |-> UnList[ci],  ar |-> 1]]
       \o <<[t |-> "pre", op |-> "++", ar |-> 1], [t |-> "pre", op |-> "--", ar |-> 1],
@@ -199,7 +199,7 @@ EnumInit == ph = "start" /\ cur = NoCase /\ rec_i = 0
 \* the other groups belong to the batch that contains constructor 1
 EnvNat(nm, dflt) == IF nm \in DOMAIN IOEnv THEN (CHOOSE nn \in 0..999 : ToString(nn) = IOEnv[nm]) ELSE dflt
 O1Lo == EnvNat("O1LO", 1)
-O1Hi == EnvNat("O1HI", NC)
+O1Hi == LET hv == EnvNat("O1HI", NC) IN IF hv > NC THEN NC ELSE hv
 Groups == {<<"tree", o1>> : o1 \in O1Lo..O1Hi}
           \cup (IF O1Lo = 1 THEN {<<"rej", 0>>, <<"unexp", 0>>, <<"lit", 0>>} \cup {<<"prog", pi>> : pi \in 1..Len(Progs)} ELSE {})
 EnumNext ==
@@ -367,9 +367,7 @@ JudgeNum(r) ==
   LET lit == NumLit(r.u) IN
   IF ~Denotes(lit, r.a[1], r.a[2]) THEN Unsup("spelling does not denote the value")
   ELSE IF r.ev1.o = "value" /\ r.ev1.v.k = "num" /\ r.ev1.v.w = WordsOfDyadic(r.a[1], r.a[2]) /\ SameOutcome(r.ev0, r.ev1) THEN Pass
-  ELSE LET asis == Lex(ClassesOfUnits(r.u), FALSE, LexDevs) IN
-       IF "Dev_TrailingDot" \in asis.fired THEN Mis("Dev_TrailingDot", "literal spelling")
-       ELSE Mis("", "literal spelling denotes another value")
+  ELSE Mis("", "literal spelling denotes another value")
 JudgeStr(r) ==
   LET lit == StrLit(r.u) IN
   IF ~lit.ok THEN Unsup("not a string literal")
